@@ -245,7 +245,7 @@ def run(ctx, prog):
                        'cancellation flag; non-finite distances skip one document, not the scan')
     hk = ctx.body('C06.R4', 'HotTier::knn_search_with_cancel')
     hv = flow.Origin(hk, stop_at_vars=True)
-    heads = [c for c in hk.calls if c.callee and c.is_('re:Enumerate<.*Iterator>::next$', 're:Iterator>::next$') and c.bb in hk.reach([c.bb])]
+    heads = [c for c in hk.calls if c.callee and c.is_('re:Enumerate<.*Iterator>::next$', 're:Iterator>::next$') and c.bb in hk.reach(hk.succ(c.bb))]
     heads = [h for h in heads if 'tracing' not in (h.callee or '')]
     if not heads:
         ctx.missing('C06.R4', 'knn_search_with_cancel: scan loop')
@@ -328,6 +328,15 @@ def run(ctx, prog):
         ctx.floor('C06.R6', 'exclusive store / index acquisitions in compact_tombstones', k6, 2, 'index.write, doc_store.write')
     hot_topk_selection(ctx, prog)
     range_restrictions(ctx, prog)
+    # ------------------------------------------------------------------ R7 every coordinate counts once
+    ctx.rule('C06.R7', 'a reported distance can be the true distance only if the kernel that computes it accumulates every coordinate exactly once: for each unsafe kernel of '
+                       'the simd module and each slice it reads, every read site is  i·S + c  over one counted loop, the sites of an iteration tile the stride, and the '
+                       'loop spans chain from element 0 to len as symbolic expressions (⌊len/16⌋ is an opaque atom; kvstatic/cover.py). Decides which elements are '
+                       'accumulated and how often — not the floating-point result')
+    from kvstatic import cover as _cover
+    from rules.C17 import LANES as _LANES
+    n7 = _cover.kernel_partitions(ctx, prog, 'C06.R7', _LANES)
+    ctx.floor('C06.R7', 'kernel × slice-parameter partitions', n7, 21, '12 kernels: 9 with two slices, 3 with one')
     ctx.stat('functions_analysed', len(set(i['key'].split(' | ')[1] for i in ctx.instances)))
 
 
